@@ -44,6 +44,10 @@ RULE = ("Hypothesis-generated dataset (3 scalar features; clustered / uniform / 
         "poisoned event and selects >= 6 events; distinct = sha1 of the "
         "canonical JSON spec")
 BUDGET = {"quick": 3200, "thorough": 48000}
+#: blunt defects fail dozens of sub-checks; 4 find-and-shrink rounds per shard
+#: are enough to name them and keep a failing run inside the time limit
+MAX_ROUNDS = 4
+TIMEOUT = {"quick": 1500}
 ESSENTIAL = ["poisoned-excluded", "sel:6+", "sel:0", "sel:1-5",
              "filter:box", "filter:manual", "filter:invalid", "filter:limit",
              "filters-disabled", "fmt:hdf5", "selected-has-nonfinite",
